@@ -454,7 +454,7 @@ func ruleRegexLongest(c *Ctx) {
 			})
 		}
 	}
-	c.atLeast("regexp compile sites and escapes", n, 7)
+	c.atLeast("regexp compile sites and escapes", n, 4)
 }
 
 func ruleResolveOwner(c *Ctx) {
